@@ -6,7 +6,7 @@ CONSTANTS
   BinOps <- MC_OpsWide
   Maps <- MC_MapsFew
   OnePairs <- MC_PairsFew
-  Routes = {"equation", "block", "shared_block", "shared_each"}
+  Routes = {"equation", "block", "shared_block", "shared_each", "cancel_first", "cancel_mid"}
   MaxUnits = 8
   MinUnits = 5
   MaxDepth = 2
